@@ -215,7 +215,8 @@ def mm(op, input, other):
             and p % 8 == 0
         ):
             # Use integer GEMM
-            out_data = torch._int_mm(input._data, other._data)
+            # torch._int_mm returns wrong results for broadcast (stride 0) inputs
+            out_data = torch._int_mm(input._data.contiguous(), other._data)
             # We must evaluate the output as float32 because the multiplication
             # of the int32 data by the scales might overflow
             fp32_output = input._scale.to(torch.float32) * other._scale.to(torch.float32) * out_data
